@@ -10,9 +10,14 @@
 (*   step d      d is released and runs until held at the next entry/returns *)
 (*   disp d c    (StepWise = FALSE) a whole dispatch between two operations  *)
 (*   op ...      one admin operation, complete                               *)
+(* DelTail = TRUE restricts deletes to the LAST entry of the list (the case  *)
+(* in which a delete needs no copy: the new slice may share the array of the *)
+(* old one, see TableMem.TruncateTail); this keeps histories of 3 operations *)
+(* (delete-last, delete-last, add with a dispatcher held since before the    *)
+(* first of them) small enough to enumerate every interleaving.              *)
 EXTENDS TableOps, TLC, Json
 
-CONSTANTS InitN, MaxOps, NDisp, Classes, AddFilters, UpdFilters, OpKinds, StepWise
+CONSTANTS InitN, MaxOps, NDisp, Classes, AddFilters, UpdFilters, OpKinds, StepWise, DelTail
 
 VARIABLES cur, nops, nextId, dst, dleft, hist
 svars == <<cur, nops, nextId, dst, dleft, hist>>
@@ -26,10 +31,12 @@ SInit == /\ cur = [i \in 1..InitN |-> [id |-> i, f |-> 0]]
          /\ hist = <<>>
 
 KeysNow == {KeyOf(e) : e \in 1..(nextId - 1)}
+DelIdx  == IF DelTail THEN {IF Len(cur) = 0 THEN 0 ELSE Len(cur) - 1} ELSE 0..Len(cur)
+DelKeys == IF DelTail THEN (IF Len(cur) = 0 THEN {} ELSE {KeyOf(cur[Len(cur)].id)}) ELSE KeysNow
 Choices ==
   (IF "add" \in OpKinds THEN {Rec("op", 0, 0, "add", nextId, f, 0, 0) : f \in AddFilters} ELSE {})
-  \cup (IF "delidx" \in OpKinds THEN {Rec("op", 0, 0, "delidx", 0, 0, i, 0) : i \in 0..Len(cur)} ELSE {})
-  \cup (IF "delkey" \in OpKinds THEN {Rec("op", 0, 0, "delkey", 0, 0, 0, k) : k \in KeysNow} ELSE {})
+  \cup (IF "delidx" \in OpKinds THEN {Rec("op", 0, 0, "delidx", 0, 0, i, 0) : i \in DelIdx} ELSE {})
+  \cup (IF "delkey" \in OpKinds THEN {Rec("op", 0, 0, "delkey", 0, 0, 0, k) : k \in DelKeys} ELSE {})
   \cup (IF "updidx" \in OpKinds THEN {Rec("op", 0, 0, "updidx", 0, f, i, 0) : i \in 0..Len(cur), f \in UpdFilters} ELSE {})
   \cup (IF "updkey" \in OpKinds THEN {Rec("op", 0, 0, "updkey", 0, f, 0, k) : k \in KeysNow, f \in UpdFilters} ELSE {})
 
